@@ -8,9 +8,12 @@ Statement (full strength): when the comparison reports the compared schema valid
 (under ANY settings — every relaxation the settings can grant is a sound one), every payload valid
 under the base root type is valid under the compared root type; when it reports valid under settings
 that grant no structural or validation relaxation (`require_equality` is one of them), the two root
-types accept exactly the same payloads.
+types accept exactly the same payloads. Both halves are proved (`extension_sound`, `equality_sound`)
+for the single-root entry point `compare_single_type_schemas`.
 -/
 import RadixModel.Lemmas.SchemaKernel
+import RadixModel.Lemmas.SchemaGen
+import RadixModel.Lemmas.SchemaEquality
 
 namespace Radix.Schema
 open Radix.Sbor
@@ -99,6 +102,52 @@ theorem extension_sound_payload {env : Env} (he : EnvOK env) (hw : WkClosed env)
       cases u
       simp [extension_sound he hw h v hb]
 
+/-- Under strict settings the closed set also transfers validity from compared to base. -/
+theorem closed_sound_rev {env : Env} (he : EnvOK env) (hw : WkClosed env) {B C : Schema} {st : Settings}
+    (hs : st.Strict) {V : List Pair} (hV : ClosedPairs env B C st V) :
+    ∀ (v : SV) (b c : TypeId), (b, c) ∈ V → validate env C c v = .ok () → validate env B b v = .ok () := by
+  intro v b c hm
+  refine rel_sound he (B := C) (C := B) (R := RelOf (fun p => (p.2, p.1) ∈ V)) ?_ v c b (.inl hm)
+  intro x y hr
+  right
+  rcases hr with hv | ⟨n, rfl, rfl⟩
+  · obtain ⟨ch, hsh, hcl⟩ := hV (y, x) hv
+    exact shallow_nodeRel_rev (V := (· ∈ V)) he hw hs hsh hcl
+  · exact wk_nodeRel hw C B _ n
+
+/-- **equality_sound.** If the comparison reports valid under settings that allow no new enum
+variants, no replacement by `Any` and no validation weakening (`require_equality()` is one), the two
+root types accept exactly the same values. -/
+theorem equality_sound {env : Env} (he : EnvOK env) (hw : WkClosed env) {B C : Schema} {st : Settings}
+    (hs : st.Strict) {b c : TypeId} (h : compareSingle env B C st b c = .done true) (v : SV) :
+    validate env B b v = .ok () ↔ validate env C c v = .ok () := by
+  obtain ⟨cache, hp⟩ := compareSingle_runs h
+  obtain ⟨hroot, hcl⟩ := worklist_closed hp
+  exact ⟨closed_sound he hw hcl v b c hroot, closed_sound_rev he hw hs hcl v b c hroot⟩
+
+/-- `require_equality()` is strict. -/
+theorem requireEquality_strict : Settings.requireEquality.Strict := ⟨rfl, rfl, rfl⟩
+
+/-- **equality_sound** for the current tree and `require_equality()`, at payload level: both schemas
+give the same accept/reject answer for every payload and every depth limit. -/
+theorem equality_sound_current {B C : Schema} {b c : TypeId}
+    (h : compareSingle genEnv B C .requireEquality b c = .done true) (depth : Nat) (payload : Bytes) :
+    validatePayload genEnv B b depth payload = .ok ↔ validatePayload genEnv C c depth payload = .ok := by
+  unfold validatePayload
+  cases hd : decodePayload scrypto depth payload with
+  | error e => simp
+  | ok v =>
+    have := equality_sound genEnv_ok genEnv_wkClosed requireEquality_strict h v
+    cases hb : validate genEnv B b v with
+    | error e =>
+      cases hc : validate genEnv C c v with
+      | error e' => simp
+      | ok u => cases u; rw [hb, hc] at this; simp at this
+    | ok u =>
+      cases u
+      rw [hb] at this
+      simp [this.mp rfl]
+
 /-- **numeric_weakening_is_superset.** A numeric validation change that the kernel classifies as
 unchanged or weakened only enlarges the accepted interval. -/
 theorem numeric_weakening_is_superset {k : IntK} {x y : Bounds} (h : (numCompare k x y).ok = true) (n : Int) :
@@ -113,5 +162,37 @@ semantic weakening of every node-level check (container, terminal, custom, byte 
 theorem validation_change_sound {env : Env} (he : EnvOK env) {st : Settings} {vb vc : TV}
     (h : compareValidation st vb vc = true) : ValRel env vb vc :=
   validationChange_sound he (compareValidation_ok h)
+
+/-! ## The current tree
+
+`genEnv` is regenerated on every check from the compiled tree (well-known type table of
+`ScryptoCustomSchema`, entity-type classes of `NodeId`); `genEnv_ok` and `genEnv_wkClosed` are decided
+on it, so the two theorems below are re-checked against what the code says now. -/
+
+/-- `extension_sound` for the current tree, no hypotheses left. -/
+theorem extension_sound_current {B C : Schema} {st : Settings} {b c : TypeId}
+    (h : compareSingle genEnv B C st b c = .done true) (depth : Nat) (payload : Bytes) :
+    validatePayload genEnv B b depth payload = .ok → validatePayload genEnv C c depth payload = .ok :=
+  extension_sound_payload genEnv_ok genEnv_wkClosed h depth payload
+
+def verdictIs (o : Outcome Bool) (b : Bool) : Bool :=
+  match o with
+  | .done x => x == b
+  | _ => false
+
+/-- Non-vacuity of `extension_sound`: base `enum E {0: (u8 in 0..=10)}`; compared adds a variant,
+widens the bound and replaces nothing else — the kernel model reports valid under `allow_extension`. -/
+example :
+    let B : Schema := ⟨[.enum [(0, [.loc 1])], .int .u8],
+      [⟨some 1, .variants [(0, ⟨some 2, none⟩)]⟩, ⟨none, .none⟩], [.none, .num .u8 ⟨some 0, some 10⟩]⟩
+    let C : Schema := ⟨[.enum [(0, [.loc 1]), (1, [])], .int .u8],
+      [⟨some 1, .variants [(0, ⟨some 2, none⟩), (1, ⟨some 3, none⟩)]⟩, ⟨none, .none⟩], [.none, .num .u8 ⟨some 0, some 20⟩]⟩
+    verdictIs (compareSingle genEnv B C .allowExtension (.loc 0) (.loc 0)) true = true ∧
+      verdictIs (compareSingle genEnv B C .requireEquality (.loc 0) (.loc 0)) false = true ∧
+      verdictIs (compareSingle genEnv C B .allowExtension (.loc 0) (.loc 0)) false = true := by
+  decide
+
+/-- Non-vacuity of the hypotheses of `closed_sound`: the cache of that run is a closed set. -/
+example : EnvOK genEnv ∧ WkClosed genEnv := ⟨genEnv_ok, genEnv_wkClosed⟩
 
 end Radix.Schema
